@@ -35,7 +35,11 @@ fn check(data_in: &[u8], mode: &'static str, note: &str, names: &[Vec<u8>], c: &
     let e = AnyEndian::Little;
     let rb = open_as(e, data);
     let pos0 = stream::gen_initial_pos(&mut c, data.len());
-    let reader = Reader::with(data.clone(), chunks.clone(), intr, vec![]).at_position(pos0);
+    // a fifth of the cases: one transient hard I/O error somewhere after opening (a reader may fail once and recover);
+    // the call it hits may fail, but whenever both parsers succeed the content must still be identical
+    let fault_at: Option<u64> = if c.u8() >= 205 { Some(6 + c.below(60)) } else { None };
+    let faults = fault_at.map(|at| vec![verif_model::io::Fault { at, kind: verif_model::io::FaultKind::Error, permanent: false, ekind: c.below(8) as u8 }]).unwrap_or_default();
+    let reader = Reader::with(data.clone(), chunks.clone(), intr, faults).at_position(pos0);
     let rs = open_stream_as(e, reader.clone());
     let ctx = format!("{}-byte {} input ({}), reader chunks {:?} interrupt_every {} initial position {}", data.len(), inp.mode, inp.note, chunks, intr, pos0);
     let (fb, mut fs) = match (rb, rs) {
@@ -44,6 +48,10 @@ fn check(data_in: &[u8], mode: &'static str, note: &str, names: &[Vec<u8>], c: &
             obs.label("both_reject");
             obs.label(inp.mode);
             obs.describe(|| json!({"input": ctx, "opened": false}));
+            return Ok(());
+        }
+        (Ok(_), Err(_)) if reader.fired() > 0 => {
+            obs.label("fault_during_open");
             return Ok(());
         }
         (Ok(_), Err(er)) => return Err(format!("{}: the slice opens but open_stream fails with {}", ctx, err_name(&er))),
@@ -82,9 +90,20 @@ fn check(data_in: &[u8], mode: &'static str, note: &str, names: &[Vec<u8>], c: &
     let mut skipped = 0u64;
     let mut compared = 0u64;
     for (k, q) in ops.iter().enumerate() {
+        let fired_before = reader.fired();
         let rs = queries::eval_stream(&mut fs, q);
+        let faulted = reader.fired() > fired_before;
         first.push(rs);
-        if empty_table || !stream::in_scope(&fb, q) {
+        if faulted {
+            // the injected error hit this call: it may fail; it must not return content
+            if let Some(Ok(x)) = rs {
+                let sb = queries::eval_bytes(&fb, q);
+                if stream::in_scope(&fb, q) && !empty_table && (matches!(sb, Ok(y) if y != x) || (sb.is_err() && stream::exact_coincidence(q))) {
+                    return Err(format!("{}: op #{} {:?} was hit by an I/O error and still answered Ok({:#x}); the slice parser answers {:?}", ctx, k, q, x, sb));
+                }
+            }
+            skipped += 1;
+        } else if empty_table || !stream::in_scope(&fb, q) {
             skipped += 1;
         } else if let Some(rs) = rs {
             let rbq = queries::eval_bytes(&fb, q);
@@ -102,8 +121,18 @@ fn check(data_in: &[u8], mode: &'static str, note: &str, names: &[Vec<u8>], c: &
         // re-query an earlier op: the answer must be unchanged
         if k > 0 {
             let j = c.idx(k + 1);
+            let fb2 = reader.fired();
             let again = queries::eval_stream(&mut fs, &ops[j]);
-            if again != first[j] {
+            let fault_involved = fault_at.is_some() && (reader.fired() > fb2 || matches!(first[j], Some(Err(()))));
+            if fault_involved {
+                // after a failure a repeated call fails again or gives the slice parser's answer
+                if let Some(Ok(x)) = again {
+                    let sb = queries::eval_bytes(&fb, &ops[j]);
+                    if stream::in_scope(&fb, &ops[j]) && !empty_table && (matches!(sb, Ok(y) if y != x) || (sb.is_err() && stream::exact_coincidence(&ops[j]))) {
+                        return Err(format!("{}: op #{} {:?}, repeated after an I/O error, answers Ok({:#x}); the slice parser answers {:?}", ctx, j, ops[j], x, sb));
+                    }
+                }
+            } else if again != first[j] {
                 return Err(format!("{}: op #{} {:?} answered {:?} at first and {:?} when repeated after op #{} {:?}", ctx, j, ops[j], first[j], again, k, q));
             }
         }
@@ -114,6 +143,7 @@ fn check(data_in: &[u8], mode: &'static str, note: &str, names: &[Vec<u8>], c: &
     obs.label(inp.mode);
     obs.label_if(!chunks.is_empty(), "chunked_reader");
     obs.label_if(intr != 0, "interrupting_reader");
+    obs.label_if(fault_at.is_some(), "one_transient_io_error");
     obs.label_if(shared, "ranges_sharing_one_endpoint_or_repeated");
     obs.label_if(empty_table, "present_but_empty_section_table");
     if ops.len() >= 3 && shared {
